@@ -8,13 +8,14 @@ git -C /repo worktree add --detach $W HEAD >/dev/null 2>&1 || exit 2
 cd $W
 place=$(head -3 "$D/demo_test.go" | grep -o 'place in: *[A-Za-z0-9_./-]*' | head -1 | sed 's/place in: *//')
 [ -z "$place" ] && place="."
+race=""; grep -qi "race" "$D/demo_test.go" && race="-race" && export CGO_ENABLED=1
 names=$(grep -o "^func Test[A-Za-z0-9_]*" "$D/demo_test.go" | sed "s/func //" | tr "\n" "|" | sed "s/|$//")
 git apply "$D/patch.diff" || { echo "CONFIRM: patch does not apply"; cd /; git -C /repo worktree remove --force $W; exit 1; }
 b=ok; go build ./... >/dev/null 2>&1 || b=FAIL
 t=ok; go test -count=1 ./... >/tmp/confirm_tests_$$.log 2>&1 || t=FAIL
 cp "$D/demo_test.go" "$W/$place/zz_demo_test.go"
-with=pass; ( cd "$W/$place" && go test -count=1 -run "$names" . >/tmp/confirm_with_$$.log 2>&1 ) || with=fail
+with=pass; ( cd "$W/$place" && go test $race -count=1 -run "$names" . >/tmp/confirm_with_$$.log 2>&1 ) || with=fail
 rm -f "$W/$place/zz_demo_test.go"; git checkout -q -- . ; cp "$D/demo_test.go" "$W/$place/zz_demo_test.go"
-without=pass; ( cd "$W/$place" && go test -count=1 -run "$names" . >/tmp/confirm_without_$$.log 2>&1 ) || without=fail
+without=pass; ( cd "$W/$place" && go test $race -count=1 -run "$names" . >/tmp/confirm_without_$$.log 2>&1 ) || without=fail
 echo "CONFIRM build=$b suite=$t demo_with_change=$with demo_without_change=$without place=$place"
 cd /; git -C /repo worktree remove --force $W; rm -f /tmp/confirm_*_$$.log
